@@ -2,6 +2,7 @@ package main
 
 import (
 	"fmt"
+	"hash/crc32"
 	"math/rand"
 	"sort"
 	"strings"
@@ -82,6 +83,16 @@ func (tdStoreStream) Generate(rng *rand.Rand, n int, thorough bool) []Case {
 		users := genStoreEntries(rng, upool, 3)
 		groups := genStoreEntries(rng, gpool, 2)
 		var ops []string
+		if !hostile && len(users) >= 2 && rng.Intn(4) == 0 {
+			// every user carries the same membership list (as NewUsers(..., WithMembersOf(...)) builds them); one user's
+			// list is then replaced, or extended, and the others are looked up
+			for i := range users {
+				users[i].Attrs = append(users[i].Attrs, Att{Type: "memberOf", Vals: []string{"admins", "staff"}})
+			}
+			a, b := users[0].DN, users[1].DN
+			ops = append(ops, fmt.Sprintf("M:%s:%d~%s~%s", hx([]byte(a)), []int{2, 2, 0}[rng.Intn(3)], hx([]byte("memberOf")), hx([]byte("ops"))),
+				"S:"+hx([]byte(testdirectory.DefaultUserDN))+":"+hx([]byte("("+b+")")), "S:"+hx([]byte(testdirectory.DefaultUserDN))+":"+hx([]byte("("+a+")")))
+		}
 		nops := 1 + rng.Intn(40)
 		if !thorough {
 			nops = 1 + rng.Intn(16)
@@ -162,6 +173,29 @@ func realEntries(es []tdEntry) []*gldap.Entry {
 	return out
 }
 
+// realEntriesShared builds the entries the way testdirectory.NewUsers(..., WithMembersOf(...)) does: attributes
+// of different entries that have the same value list share ONE []string (len == cap), so a handler that writes
+// into an attribute's slice in place shows up as a change of another entry.
+func realEntriesShared(es []tdEntry) []*gldap.Entry {
+	cache := map[string][]string{}
+	var out []*gldap.Entry
+	for _, e := range es {
+		ent := &gldap.Entry{DN: e.DN}
+		for _, a := range e.Attrs {
+			k := strings.Join(a.Vals, "\x00") + fmt.Sprint(len(a.Vals))
+			v, ok := cache[k]
+			if !ok {
+				v = make([]string, len(a.Vals))
+				copy(v, a.Vals)
+				cache[k] = v
+			}
+			ent.Attributes = append(ent.Attributes, gldap.NewEntryAttribute(a.Type, v[:len(v):len(v)]))
+		}
+		out = append(out, ent)
+	}
+	return out
+}
+
 func renderViews(views []string) (string, bool) {
 	// the last view is the result; the ones before it are entries
 	if len(views) == 0 {
@@ -195,8 +229,12 @@ func renderViews(views []string) (string, bool) {
 
 func (tdStoreStream) Impl(c Case) string {
 	f := strings.Fields(c.Line)
-	users := realEntries(parseTdEntries(strings.TrimPrefix(f[3], "users=")))
-	groups := realEntries(parseTdEntries(strings.TrimPrefix(f[4], "groups=")))
+	mk := realEntries
+	if crc32.ChecksumIEEE([]byte(c.Line))&1 == 1 {
+		mk = realEntriesShared // the application built its entries with shared value slices
+	}
+	users := mk(parseTdEntries(strings.TrimPrefix(f[3], "users=")))
+	groups := mk(parseTdEntries(strings.TrimPrefix(f[4], "groups=")))
 	d := testdirectory.VerifNewDirectory(&harnessT{}, &testdirectory.Defaults{Users: users, Groups: groups,
 		UserDN: string(unhx(strings.TrimPrefix(f[1], "userdn="))), GroupDN: string(unhx(strings.TrimPrefix(f[2], "groupdn=")))})
 	var outs []string
@@ -249,11 +287,11 @@ func (tdStoreStream) Impl(c Case) string {
 			}
 			frame = nd.Ser()
 		case "U":
-			d.SetUsers(realEntries(parseTdEntries(p[1]))...)
+			d.SetUsers(mk(parseTdEntries(p[1]))...)
 			outs = append(outs, "set")
 			continue
 		case "G":
-			d.SetGroups(realEntries(parseTdEntries(p[1]))...)
+			d.SetGroups(mk(parseTdEntries(p[1]))...)
 			outs = append(outs, "set")
 			continue
 		}
